@@ -48,6 +48,7 @@ func effective(con *Contract, b *Behaviour) *Behaviour {
 	e.Assigns = append(append([]*Clause{}, con.Common.Assigns...), b.Assigns...)
 	e.HasAssigns = con.Common.HasAssigns || b.HasAssigns
 	e.Panics = append(append([]*Clause{}, con.Common.Panics...), b.Panics...)
+	e.Insts = append(append([]*Clause{}, con.Common.Insts...), b.Insts...)
 	for k, v := range con.Common.Loops {
 		cp := *v
 		e.Loops[k] = &cp
@@ -503,7 +504,7 @@ func (fx *FnExec) knownExternal(st *State, full string, fn *ssa.Function, args [
 		return []*Term{e}, true
 	case "strings.IndexByte", "strings.ContainsRune", "strings.IndexRune":
 		// on a constant string the answer is a mechanically computed byte-set membership
-		if cs, ok := constStringOf(args[0]); ok {
+		if cs, ok := constStringOf(args[0]); ok && (full == "strings.IndexByte" || isASCII(cs)) {
 			c := args[1]
 			var present [256]bool
 			for i := 0; i < len(cs); i++ {
@@ -541,6 +542,15 @@ func (fx *FnExec) knownExternal(st *State, full string, fn *ssa.Function, args [
 		return []*Term{v}, true
 	}
 	return nil, false
+}
+
+func isASCII(s string) bool {
+	for i := 0; i < len(s); i++ {
+		if s[i] >= 0x80 {
+			return false
+		}
+	}
+	return true
 }
 
 // VerifyAll verifies the units and, transitively, every lemma they use.
